@@ -262,7 +262,7 @@ func TestGvcReplay(t *testing.T) {
 	fmt.Printf("GVC-BOUNDED-CASES %d\n", n)
 }
 `})
-	boundedChecks = append(boundedChecks, boundedCheck{prop: "C08", props: []string{"C09", "C11", "C18"}, name: "bounded:deepcopy.generic-helpers", fn: "github.com/go-task/task/v3/internal/deepcopy.{Slice,Map,OrderedMap}",
+	boundedChecks = append(boundedChecks, boundedCheck{prop: "C08", props: []string{"C09", "C11", "C18", "C16"}, name: "bounded:deepcopy.generic-helpers", fn: "github.com/go-task/task/v3/internal/deepcopy.{Slice,Map,OrderedMap}",
 		why:    "the generic copy helpers test every element for the Copier interface at run time (a dynamic type test on a type parameter); their contracts (fresh result, same length, element-wise copies) are assumed by every DeepCopy proof",
 		bound:  "nil, empty and two-element inputs, with plain and with Copier elements, for each of the three helpers: the result must be a different object (also for EMPTY inputs), have the same length and equal contents, and writing to it must not change the original",
 		pkgRel: "internal/deepcopy",
@@ -289,6 +289,20 @@ func TestGvcReplay(t *testing.T) {
 	n := 0
 	bad := func(f string, a ...any) { t.Errorf("GVC-REPLAY-REPRODUCED: "+f, a...) }
 	// OrderedMap
+	{
+		n++
+		func() {
+			defer func() {
+				if r := recover(); r != nil {
+					bad("OrderedMap(nil) panics (%v): a Matrix decoded from an empty mapping ('matrix: {}') holds a nil map, and every command is deep-copied when its task is compiled", r)
+				}
+			}()
+			var none *orderedmap.OrderedMap[string, int]
+			if c := OrderedMap(none); c != nil && c.Len() != 0 {
+				bad("OrderedMap(nil) is not empty")
+			}
+		}()
+	}
 	for _, size := range []int{0, 1, 2} {
 		n++
 		orig := orderedmap.NewOrderedMap[string, int]()
